@@ -9,6 +9,7 @@
 #define KEY   "bs-key"
 
 static long n_requests, n_level_refusals;
+static int g_reply_form;
 static void handler(const unsigned char *req, size_t n, vbuf *resp, void *user) {
 	rp_req r;
 	rp_env e;
@@ -31,7 +32,10 @@ static void handler(const unsigned char *req, size_t n, vbuf *resp, void *user) 
 		rp_req_free(&r);
 		return;
 	}
-	rp_aggregate(&sig, r.hash, r.hash_len, level, level >= 240 ? 0 : 3, 3, 1700000000ULL, 1700000000ULL + 86400 * 3);
+	/* reply forms: 0 calendar chain with its aggregation time and an authentication record; 1 aggregation chains only; 2 a calendar chain
+	 * published in the second of the aggregation, which therefore carries no aggregation time element */
+	rp_aggregate(&sig, r.hash, r.hash_len, level, level >= 240 ? 0 : 3, g_reply_form == 1 ? 0 : 3, 1700000000ULL, g_reply_form == 2 ? 1700000000ULL : 1700000000ULL + 86400 * 3);
+	if (g_reply_form == 2) { sig.cal_has_aggr = 0; if (rs_fix(&sig, RS_FIX_TAIL) != 0) vf_harness_error("reply without aggregation time element"); }
 	sig.ch[0].links[0].level_corr -= level;     /* reported relative to the client's root, see c07_sign.c */
 	rp_sig_body(&sig, &body);
 	rp_aggr_resp_payload(&payload, r.version, r.req_id, 1, 0, NULL, body.p, body.n);
@@ -218,6 +222,22 @@ static void run(void) {
 		if (n == 3 && masking && meta == 1 && level == 0) vf_sample("block signer, blinding masks, metadata on every leaf, 3 leaves: 3 signatures verified (library + reference)");
 		vf_case_end(1);
 	}
+	/* other honest replies: aggregation chains only; a calendar chain without the (redundant) aggregation time element */
+	for (g_reply_form = 1; g_reply_form <= 2; g_reply_form++) for (masking = 0; masking < 2; masking++) for (meta = 0; meta < 3; meta += 2) for (n = 1; n <= 3; n++) {
+		KSI_CTX *ctx;
+		KSI_BlockSigner *bs;
+		char what[64];
+		if (!vf_case_begin("bs-reply%d:mask%d:meta%d:n%d", g_reply_form, masking, meta, n)) continue;
+		snprintf(what, sizeof what, "reply form %d mask%d meta%d", g_reply_form, masking, meta);
+		ctx = new_ctx();
+		bs = new_signer(ctx, masking);
+		do_block(ctx, bs, n, 10, meta, n == 3 ? 1 : 0, NULL, what);
+		KSI_BlockSigner_free(bs);
+		KSI_CTX_free(ctx);
+		if (vf_alloc_live != 0) { vf_fail("leak", "%ld SDK allocations live after the block", vf_alloc_live); vf_alloc_live = 0; }
+		vf_case_end(1);
+	}
+	g_reply_form = 0;
 	{
 		static const int HL[] = {200, 250, 251, 252, 253, 254, 255};
 		int hi;
